@@ -75,6 +75,18 @@ func (g *gen) execCall(fr *frame, cur *node, st *State, c *ssa.CallCommon, pos t
 		if op, ok := lockOps[key]; ok {
 			return nil, g.lockOp(fr, cur, st, op, c.Args[0], pos)
 		}
+		if key == "sync.Map.Range" && fr.top && instr != nil {
+			var mc *ssa.MakeClosure
+			switch a := c.Args[1].(type) {
+			case *ssa.MakeClosure:
+				mc = a
+			case *ssa.ChangeType:
+				mc, _ = a.X.(*ssa.MakeClosure)
+			}
+			if mc != nil {
+				return nil, g.execMapRange(fr, cur, st, g.sval(fr, c.Args[0]), mc, pos, instr)
+			}
+		}
 		fs = g.P.spec.Funcs[key]
 		if mc, ok := c.Value.(*ssa.MakeClosure); ok {
 			if fs == nil || fs.Inline {
@@ -104,16 +116,21 @@ func (g *gen) execCall(fr *frame, cur *node, st *State, c *ssa.CallCommon, pos t
 				}
 			}
 		}
+		fv := g.sval(fr, c.Value)
 		if fs == nil {
 			if nk, ok := namedStructKey(c.Value.Type()); ok {
 				key = nk
 				fs = g.P.spec.FuncTypes[key]
+				if fs == nil {
+					if fs = g.P.spec.FuncTypes[key+".call"]; fs != nil {
+						args = append(args, fv)
+					}
+				}
 			}
 		}
 		if fs == nil {
 			key = "func-value:" + c.Value.Type().String()
 		}
-		fv := g.sval(fr, c.Value)
 		g.safety(cur, "nil", "func", pos, not(app("=", fv, "null")))
 		for _, a := range c.Args {
 			args = append(args, g.val(fr, a))
@@ -777,4 +794,138 @@ func (g *gen) cellsImmutable(el types.Type) bool {
 		}
 	}
 	return false
+}
+
+// execMapRange: m.Range(closure) as a loop over a ghost key sequence with the closure body
+// executed in place. Needs "rangeloop k: invariant ..." clauses; in them $ri is the number of
+// keys already visited, $rn the number of keys, $rk[j] the j-th key, $ridx[k] the position of
+// key k, $dom0/$vals0 the map's contents when Range was called.
+// Assumption (recorded): no other goroutine modifies the map while Range runs.
+func (g *gen) execMapRange(fr *frame, cur *node, st *State, m string, mc *ssa.MakeClosure, pos token.Pos, instr ssa.Instruction) *node {
+	ord := g.callOrdinal(fr, "sync.Map.Range", instr)
+	ls := g.fs.RangeLoops[ord]
+	if ls == nil {
+		g.errorf("%s: sync.Map.Range call %d needs a rangeloop invariant", g.name, ord)
+		return cur
+	}
+	g.used["assume:sync.Map.Range visits each key present at the call exactly once (no concurrent modification)"] = true
+	g.safety(cur, "nil", "map", pos, not(app("=", m, "null")))
+	domName, domSort := "G.sync.Map.dom", "(Array Ref (Array Iface Bool))"
+	valName, valSort := "G.sync.Map.vals", "(Array Ref (Array Iface Iface))"
+	dom0 := g.c.fresh("rdom0", "(Array Iface Bool)")
+	vals0 := g.c.fresh("rvals0", "(Array Iface Iface)")
+	cur.assume(app("=", dom0, app("select", g.svGet(st, domName, domSort), m)))
+	cur.assume(app("=", vals0, app("select", g.svGet(st, valName, valSort), m)))
+	rn := g.c.fresh("rn", "Int")
+	rk := g.c.fresh("rk", "(Array Int Iface)")
+	ridx := g.c.fresh("ridx", "(Array Iface Int)")
+	cur.assume(app(">=", rn, "0"))
+	cur.assume(fmt.Sprintf("(forall ((i Int)) (! (=> (and (<= 0 i) (< i %s)) (and (select %s (select %s i)) (= (select %s (select %s i)) i))) :pattern ((select %s i))))", rn, dom0, rk, ridx, rk, rk))
+	cur.assume(fmt.Sprintf("(forall ((k Iface)) (! (=> (select %s k) (and (<= 0 (select %s k)) (< (select %s k) %s) (= (select %s (select %s k)) k))) :pattern ((select %s k))))", dom0, ridx, ridx, rn, rk, ridx, dom0))
+	bindEnv := func(e *env, ri string) {
+		for k, v := range g.localEnvAt(fr, instr.Block(), instrIndexOf(instr.Block(), instr), e.st) {
+			if _, bound := e.vars[k]; !bound {
+				e.vars[k] = v
+			}
+		}
+		ifc := XT{S: "Iface", T: types.NewInterfaceType(nil, nil)}
+		e.vars["$ri"] = binding{ri, xtInt}
+		e.vars["$rn"] = binding{rn, xtInt}
+		e.vars["$rk"] = binding{rk, XT{S: "(Array Int Iface)", K: &xtInt, E: &ifc}}
+		e.vars["$ridx"] = binding{ridx, XT{S: "(Array Iface Int)", K: &ifc, E: &xtInt}}
+		e.vars["$dom0"] = binding{dom0, XT{S: "(Array Iface Bool)", K: &ifc, E: &xtBool}}
+		e.vars["$vals0"] = binding{vals0, XT{S: "(Array Iface Iface)", K: &ifc, E: &ifc}}
+	}
+	assertInv := func(n *node, s *State, ri, which string, conds []string) {
+		e := g.topEnv(s, &State{m: map[string]string{}}, nil)
+		bindEnv(e, ri)
+		for _, c := range ls.Invs {
+			t, err := e.trBool(c.E)
+			if err != nil {
+				g.errorf("%s: rangeloop %d invariant [%s]: %v", g.name, ord, c.Label, err)
+				continue
+			}
+			g.addObl(n, "inv-"+which, fmt.Sprintf("rangeinv:%d:%s:%s", ord, which, c.Label), c.Src, c.Where, implies(and(conds...), t), false)
+		}
+	}
+	assertInv(cur, st, "0", "entry", nil)
+	// header
+	loopID := fmt.Sprintf("%s#range%d", fr.fn.Name(), ord)
+	hn := g.newNode(loopID)
+	cur.succs = append(cur.succs, &edge{hn, nil})
+	before := st.clone()
+	if mods, known := g.loopMods[loopID]; known {
+		for _, name := range sortedKeys(mods) {
+			g.havocLoopVar(hn, st, before, name)
+		}
+	} else {
+		for name := range g.allVars {
+			g.havocLoopVar(hn, st, before, name)
+		}
+		for name := range before.m {
+			g.havocLoopVar(hn, st, before, name)
+		}
+	}
+	ri := g.c.fresh("ri", "Int")
+	hn.assume(and(app("<=", "0", ri), app("<=", ri, rn)))
+	var excl map[string][]string
+	var whole map[string]bool
+	if ls.HasModifies {
+		e := g.topEnv(before, &State{m: map[string]string{}}, nil)
+		bindEnv(e, ri)
+		excl, whole = g.loopModifiesExcl(e, ls, 1000+ord)
+		g.assumeLoopFrame(hn, st, before, excl, whole)
+	}
+	{
+		e := g.topEnv(st, &State{m: map[string]string{}}, nil)
+		bindEnv(e, ri)
+		for _, c := range ls.Invs {
+			if t, err := e.trBool(c.E); err == nil {
+				hn.assume(t)
+			}
+		}
+	}
+	hst := st.clone()
+	// exit without break
+	var exits []predRec
+	exits = append(exits, predRec{nil, hn, st.clone(), []string{app(">=", ri, rn)}})
+	// body
+	bn := g.newNode(loopID + ".body")
+	hn.succs = append(hn.succs, &edge{bn, []string{app("<", ri, rn)}})
+	bst := st.clone()
+	key := app("select", rk, ri)
+	var binds []Val
+	for _, b := range mc.Bindings {
+		binds = append(binds, g.val(fr, b))
+	}
+	res, en := g.execInline(fr, bn, bst, mc.Fn.(*ssa.Function), binds, []Val{key, app("select", vals0, key)}, pos)
+	r, _ := res.(string)
+	if r == "" {
+		r = "true"
+	}
+	// continue: invariant preserved at ri+1
+	mods := g.loopModsN[loopID]
+	if mods == nil {
+		mods = map[string]bool{}
+		g.loopModsN[loopID] = mods
+	}
+	for name, srt := range g.allVars {
+		if g.svGet(bst, name, srt) != g.svGet(hst, name, srt) {
+			mods[name] = true
+		}
+	}
+	assertInv(en, bst, app("+", ri, "1"), "preserved", []string{r})
+	if ls.HasModifies {
+		g.checkLoopFrame(en, bst, hst, excl, whole, fmt.Sprintf("rangeframe:%d", ord), g.pos(pos), nil)
+	}
+	// break
+	exits = append(exits, predRec{nil, en, bst, []string{not(r)}})
+	jn, jst := g.joinPreds(exits, loopID+".exit")
+	for k := range st.m {
+		delete(st.m, k)
+	}
+	for k, v := range jst.m {
+		st.m[k] = v
+	}
+	return jn
 }
